@@ -349,12 +349,6 @@ def excluded(src):
     return "const function" in src
 
 
-def known_c16(source, rules):
-    if "convert_square_root_call" in rules:
-        return "convert_square_root_call:negative-zero-or-negative-infinity"
-    return None
-
-
 def run_stream(ctx, prop):
     rnd = random.Random(ctx.seed ^ 0xc16)
     thorough = ctx.tier != "quick"
@@ -373,4 +367,85 @@ def run_stream(ctx, prop):
         jobs.append((tuple(order), body))
     return run_model_stream(
         ctx, prop, "local rewrites: model of the rule (Model/Refactor.v + traversal models) vs the rule applied to the tree",
-        CONFIGS, jobs, known=known_c16)
+        CONFIGS, jobs)
+
+
+# ---------------------------------------------------------------------------------------------
+# behavioural stream on templates: run(input) vs run(the REAL rule's output) in the reference
+# interpreter (property-level oracle, independent of the models)
+
+BEHAVIOUR_PREAMBLE = """From Coq Require Import ZArith.
+From DL Require Import Lib.Bytes Lib.F64 Lua.Syntax Lua.Sem Lua.RunCheck Lua.KnownClasses.
+Open Scope N_scope.
+Open Scope string_scope.
+Definition bx := unhex.
+Definition nm := of_string.
+(* case = (input program, output program); verdict = compare_all (0 same, 1 no verdict, 2 different)
+   + 10 when the input holds math.sqrt of a statically negative zero / negative infinity *)
+Definition stat_case (c : block * block) : N :=
+  compare_all 300%nat (fst c) (snd c) + (if known_sqrt_call (fst c) then 10 else 0).
+"""
+
+BEHAVIOUR_SHAPES = {
+    GROUP: ["local a1 = f() local b1 = 2 return a1, b1", "local a1, b1 = g() local c1 = 3 return a1, b1, c1",
+            "local a1 = g() local b1, c1 = g() return a1, b1, c1", "local a1 local b1 = f() return a1, b1",
+            "local a1 = f() local b1 return a1, b1", "local a1 = 1 local b1 = function() return a1 end return b1()",
+            "local a1 = f() local a1 = g() return a1", "local a1 = f() local b1 = (function(p1) return p1 end)(x) return a1, b1",
+            "local a1 = 1, f() local b1 = 3 return a1, b1", "local a1 = g() local b1 = g() local c1 = h() return a1, b1, c1",
+            "local a1 = f() local b1 = a1 + 1 local c1 = 3 return a1, b1, c1", "local a1, b1 local c1, d1 = g() return a1, b1, c1, d1"],
+    LOCALFN: ["local function r1(n1) if n1 == 0 then return 0 end return r1(n1 - 1) end return r1(2)",
+              "local function r1(a1) return a1 end return r1(f())", "local function r1(r1) return r1 end return r1(5)",
+              "local function r1() return g() end local function r2() return r1() end return r2()",
+              "local function r1(...) return select('#', ...), ... end return r1(g())",
+              "local r1 = 1 local function r1() return 2 end return r1()"],
+    FNASSIGN: ["function M.f(a1) return a1 end return M.f(f())", "function M:m(a1) return self == M, a1 end return M:m(3)",
+               "M.sub = {} function M.sub.f(...) return ... end return M.sub.f(g())",
+               "M.sub = {} function M.sub:m() return self == M.sub end return M.sub:m()",
+               "function gl(a1) return a1 end return gl(1)", "local lf function lf(a1) return a1 + 1 end return lf(1)",
+               "function M:m(...) return self == M, select('#', ...) end return M:m(g())",
+               "function M.f() function M.g() return 1 end return M.g end return M.f()()"],
+    METHOD: ["return o:m(1, 2)", "return ('abc'):len()", "local s1 = 'abc' return s1:len(), s1:sub(2)", "return o.y:n()",
+             "return (o):m(f())", "return o:m(o:m(1))", "o:m(g()) return 1", "return o:m 'lit'", "return o:m { 1 }"],
+    SQRT: ["return math.sqrt(4), math.sqrt(x)", "return 1 / math.sqrt(-0)", "return math.sqrt(-1/0)", "math.sqrt(f()) return 1",
+           "local math = { sqrt = function(v1) ext_s(v1) return 7 end } return math.sqrt(2)", "return math.sqrt('4')",
+           "return math.sqrt(math.sqrt(16))", "math.sqrt(f(), g()) return 2", "math.sqrt(t.x) return 3",
+           "local function w1(math) return math.sqrt(9) end return w1({ sqrt = function() return 0 end })"],
+}
+
+
+def run_behaviour(ctx, prop):
+    rnd = random.Random(ctx.seed ^ 0xbe16)
+    jobs = []
+    for rid, shapes in BEHAVIOUR_SHAPES.items():
+        for body in shapes:
+            jobs.append(((rid,), body))
+            order = list(BEHAVIOUR_SHAPES)
+            rnd.shuffle(order)
+            jobs.append((tuple(order), body))
+    progs = [("[" + ", ".join(CONFIGS[i][1] for i in ids) + "]", SEARCH_PRELUDE + body) for ids, body in jobs]
+    terms = apply_batch(progs)
+    cases, index, errors = [], {}, 0
+    for (rules, src), (t_in, t_out) in zip(progs, terms):
+        if t_in.startswith("ERR:") or t_out.startswith("ERR:"):
+            errors += 1
+            continue
+        k = len(cases)
+        index[k] = (rules, src, t_in != t_out)
+        cases.append((k, "(%s, %s)" % (t_in, t_out)))
+    stats = C.run_coq_stats(prop, BEHAVIOUR_PREAMBLE, cases, chunk=12, tag="behaviour")
+    same = [k for k, v in stats.items() if v % 10 == 0]
+    bad = sorted(k for k, v in stats.items() if v % 10 == 2)
+    ctx.stream("templates: run(input) vs run(the rule's output) in the Coq reference interpreter",
+               len(cases), len({index[k][1] + index[k][0] for k in same if index[k][2]}),
+               [{"rules": index[k][0], "source": index[k][1]} for k in same[:2]],
+               same=len(same), no_verdict=sum(1 for v in stats.values() if v % 10 == 1), differing=len(bad),
+               stage_errors=errors)
+    for k in bad:
+        rules, src, _ = index[k]
+        key = ("convert_square_root_call:negative-zero-or-negative-infinity"
+               if stats[k] >= 10 and "convert_square_root_call" in rules else None)
+        ctx.violation("output program behaves differently from the original",
+                      {"rules": rules, "source": src, "stream": "C16 templates, behavioural",
+                       "replay": "darklua process with these rules on this source; compare runs with Lua/RunCheck.v compare_all"},
+                      key=key)
+    return len(bad)
